@@ -11,6 +11,55 @@ from sa.sym import rat_equal, parse_expr
 _D = "esrally/driver/driver.py"
 
 
+def lazy_batch_rule(chk, rid, drv):
+    """ThroughputCalculator.calculate merges new and carried-over samples with a LAZY, single-use chain. Two necessary conditions (shared with C07: throughput is computed from
+    all samples): (1) the only consumer of that iterator is the materialising sort / list; (2) between creating the chain and materialising it none of its sources is mutated
+    (a `.clear()` on the carried-over list empties what the chain has not read yet)."""
+    TC = drv.cls("ThroughputCalculator")
+    calc = drv.methods(TC).get("calculate")
+    if calc is None:
+        raise AnchorMissing("ThroughputCalculator.calculate")
+    g = cfg_of(calc)
+    lazy_defs = [n for n in walk_body(calc) if isinstance(n, ast.Assign) and isinstance(n.targets[0], ast.Name) and isinstance(n.value, ast.Call)
+                 and dotted(n.value.func) in ("itertools.chain", "chain", "iter", "map", "filter", "zip")]
+    for ld in lazy_defs:
+        nm = ld.targets[0].id
+        scope = source.enclosing(ld, (ast.For, ast.While)) or calc  # the binding lives for one iteration of the per-task loop
+        uses = [x for x in ast.walk(scope) if isinstance(x, ast.Name) and x.id == nm and isinstance(x.ctx, ast.Load) and x not in list(ast.walk(ld)) and x.lineno >= ld.lineno]
+        bad = [x for x in uses if not (isinstance(source.parent(x), ast.Call) and dotted(source.parent(x).func) in ("sorted", "list", "tuple") and source.parent(x).args and source.parent(x).args[0] is x)]
+        ok = len(uses) >= 1 and not bad and len(uses) == 1
+        chk.ob(rid, f"the lazily merged batch `{nm}` is consumed exactly once, by the materialising sort", ok, bad[0] if bad else (uses[0] if uses else calc),
+               "" if ok else f"{len(uses)} read(s); `{short(source.enclosing_stmt(bad[0]), 60) if bad else ''}` consumes elements of the single-use iterator before / besides the sort: those samples are never counted",
+               key=f"esrally/driver/driver.py:ThroughputCalculator.calculate:lazy-batch:{nm}")
+        # sources of the chain and their aliases
+        srcs = {u(a_) for a_ in ld.value.args}
+        for n in ast.walk(scope):
+            if isinstance(n, ast.Assign) and len(n.targets) == 1 and isinstance(n.targets[0], ast.Name) and u(n.value) in srcs:
+                srcs.add(n.targets[0].id)
+        mats = [source.parent(x) for x in uses if x not in bad]
+        muts = []
+        for n in ast.walk(scope):
+            hit = None
+            if isinstance(n, ast.Call) and isinstance(n.func, ast.Attribute) and n.func.attr in ("clear", "pop", "remove", "sort", "reverse", "insert") and u(n.func.value) in srcs:
+                hit = n
+            elif isinstance(n, ast.Delete) and any(u(t.value if isinstance(t, ast.Subscript) else t) in srcs for t in n.targets):
+                hit = n
+            elif isinstance(n, ast.Assign) and any(isinstance(t, ast.Subscript) and u(t.value) in srcs for t in n.targets):
+                hit = n
+            if hit is not None and mats:
+                try:
+                    between = g.path_exists(g.node_of(ld), g.node_of(hit), avoid=[g.node_of(m) for m in mats], edge_ok=g.normal_edge) and any(g.path_exists(g.node_of(hit), g.node_of(m), edge_ok=g.normal_edge) for m in mats)
+                except KeyError:
+                    between = False
+                if between and g.node_of(hit) is not g.node_of(ld):
+                    muts.append(hit)
+        chk.ob(rid, f"no source of the lazy batch `{nm}` is mutated before it is materialised", not muts, muts[0] if muts else ld,
+               "" if not muts else f"`{short(source.enclosing_stmt(muts[0]), 60)}` runs while the chain has not been read yet: the carried-over samples vanish from this round's throughput",
+               key=f"esrally/driver/driver.py:ThroughputCalculator.calculate:lazy-batch-sources:{nm}")
+    merges = [n for n in walk_body(calc) if isinstance(n, ast.Call) and dotted(n.func) in ("itertools.chain", "chain")]
+    chk.ob(rid, "merged batch located", bool(lazy_defs) or bool(merges), calc, f"lazy locals: {sorted(n.targets[0].id for n in lazy_defs)}")
+
+
 def run(chk):
     repo = chk.repo
     drv = repo.module(_D)
@@ -132,6 +181,7 @@ def run(chk):
     srt = [n for n in walk_body(calc) if isinstance(n, ast.Call) and dotted(n.func) == "sorted"]
     ok = bool(srt) and any(k.arg == "key" and "absolute_time" in u(k.value) for k in srt[0].keywords)
     chk.ob("O6.1", "batch sorted by absolute time", ok, srt[0] if srt else calc, "")
+    lazy_batch_rule(chk, "O6.1", drv)
 
     # ---- O6.2 monotone interval / safe division ------------------------------------------------------------------------------
     chk.rule("O6.2", "interval := max(t - start, interval); throughput is evaluated only under interval > 0", 3, "division by zero / negative or shrinking interval")
